@@ -20,8 +20,8 @@
                   again.  Checked: all four succeeded and only rules that
                   Text!JSONRules allows for the type were needed.
    ev = "used"    a document / text A decoded into a receiver that already held B
-                  (Text!Replaces): for types with a custom unmarshaller the result
-                  must be A; update k+1 of a real chain (reorgs of depth >= 2 included)
+                  (Text!Replaces): for scalar text forms and for the variant /
+                  derived-state JSON types (Text!InReplaceClause) the result must be A; update k+1 of a real chain (reorgs of depth >= 2 included)
                   decoded into the variable that held update k.
    ev = "upd"     one tracked element refreshed by an ApplyUpdate/RevertUpdate
                   and by the same update after json.Marshal/Unmarshal: proofs
@@ -116,7 +116,9 @@ UpdLine(t, l) ==
 
 \* ev = "used": Text!Replaces
 UsedLine(t, l) ==
-  IF Replaces(t.custom, t.fok, t.uok, t.same, t.eq) THEN TRUE
+  IF t.scope # InReplaceClause(t.how, t.scalar, t.type)
+  THEN Reject(l, "INFRA the harness and Text!InReplaceClause disagree about the scope of the line")
+  ELSE IF Replaces(t.scope, t.fok, t.uok, t.same, t.eq) THEN TRUE
   ELSE IF ~t.uok THEN Reject(l, "used-receiver-unparsed")
   ELSE /\ Check(t.same, l, "used-receiver-remarshal-differs")
        /\ Check(t.eq, l, "used-receiver-value-differs")
